@@ -19,7 +19,7 @@ import subprocess
 import tempfile
 from concurrent.futures import ThreadPoolExecutor
 
-from .. import build, emitlib, impl, model, paths, report, sexp
+from .. import build, emitlib, impl, model, paths, report, sexp, snippet
 from . import e2e
 
 SENTINEL = b'SENTINEL: an existing file that must survive a failed run\n'
@@ -41,6 +41,11 @@ INPUTS = [
     ('empty', b''),
     ('invalid_utf8', b'cmd a \xff\xfe;\n'),
     ('non_ascii_error', 'cmd \u00e9\u00e9 "\u017c" (b | ;\n'.encode('utf-8')),
+    # multi-byte characters before the construct: the underline is shifted / taken for a multi-line start / dropped
+    ('non_ascii_shifted', 'cmd x "\u00e9\u00e9" <A>b<C>;\n'.encode('utf-8')),
+    ('non_ascii_multiline', 'cmd x "\u00e9\u00e9\u00e9\u00e9\u00e9\u00e9\u00e9\u00e9" <A>b<C>;\n'.encode('utf-8')),
+    ('non_ascii_dropped', ('cmd x "' + '\u00e9' * 12 + '" <UNDEF>;\n<A> ::= p;\n<A> ::= q;\n').encode('utf-8')),
+    ('tab_ff_cr', b'cmd\ta\x0c<UNDEF>\r\n\t --o=(a\tb) ;\n'),
 ]
 
 
@@ -135,12 +140,7 @@ def run_one(binary, argv, stdin, files):
         shutil.rmtree(d, ignore_errors=True)
 
 
-LOCATED = re.compile(rb'(?P<path>[^\n:]*):(?P<line>\d+):(?P<col>\d+):(?P<kind>error|warning)(?:: (?P<label>[^\n]*))?\n'
-                     rb' *\|\n'
-                     rb' *(?P<no>\d+) \| (?P<src>[^\n]*)\n'
-                     rb' *\| (?P<pad> *)(?P<marks>[\^-]+)(?: (?P<what>[^\n]*))?\n'
-                     rb' *\|\n'
-                     rb'(?: *= help: (?P<help>[^\n]*)\n)?')
+LOCATED = snippet.BLOCK
 
 
 def stderr_messages(err):
@@ -151,9 +151,8 @@ def stderr_messages(err):
     while pos < n:
         m = LOCATED.match(err, pos)
         if m:
-            d = {k: (v.decode('latin-1') if v is not None else None) for k, v in m.groupdict().items()}
-            out.append(('located', 'w' if d['kind'] == 'warning' else 'e', d['label'] or '', d['what'] or '', d['help'],
-                        '%s:%s:%s:' % (d['path'], d['line'], d['col']), int(d['no']), d['src'], len(d['pad']), len(d['marks'])))
+            bl = snippet.block_of(m)
+            out.append(('located', 'w' if bl['warning'] else 'e', bl['label'], bl['help'], bl['header'], bl['no'], bl['src'], bl['ann']))
             pos = m.end()
             continue
         eol = err.find(b'\n', pos)
@@ -189,8 +188,9 @@ def model_messages(tr):
         m = e[1]
         k = m[0]
         if k == 'located':
-            out.append(('located', m[1], str(m[2]), str(m[3]), None if m[4] == '-' else str(m[4]), str(m[5]), int(m[6]), str(m[7]),
-                        int(m[8]), int(m[9]) - int(m[8])))
+            line, cs, ce = str(m[7]), int(m[8]), int(m[9])
+            out.append(('located', m[1], str(m[2]), None if m[4] == '-' else str(m[4]), str(m[5]), int(m[6]), line,
+                        snippet.annotation(line, cs, ce, m[1] == 'w', str(m[3]))))
         elif k == 'ambiguity':
             out.append(('ambiguity', m[1][0]))
         elif k == 'zshname':
@@ -218,10 +218,8 @@ def same_messages(a, b):
         if x[0] != y[0]:
             return False
         if x[0] == 'located':
-            plain = all(32 <= ord(ch) < 127 for ch in x[7])
-            if x[1:7] != y[1:7]:
-                return False
-            if plain and (x[7].rstrip(' ') != y[7].rstrip(' ') or x[8:] != y[8:]):
+            # header, label, help, gutter number; the quoted line verbatim; the annotation line drawn from the model's columns
+            if x[1:6] != y[1:6] or x[6].rstrip(' ') != y[6].rstrip(' ') or not snippet.same_annotation(x[7], y[7]):
                 return False
         elif x != y:
             return False
